@@ -22,6 +22,7 @@
 -/
 import Pakhi.Lemmas.Control
 import Pakhi.Lemmas.FrameInv
+import Pakhi.Lemmas.Names
 
 namespace Pakhi
 namespace C05
@@ -182,5 +183,20 @@ theorem call_is_bind_then_body {prog : List Stmt} (h : Structured prog) (F : Nat
         (by simpa [SBlock.flatten] using hcl2) (by simp)
       simp only [Bool.false_eq_true, if_false, hcl2] at hrun
       rw [this, ← hrun]; rfl
+/-! ### Names (whole-body statements, `Lemmas/Names.lean`) -/
+
+/-- **a call leaves the caller's names alone**: evaluating any expression — calls of user functions to any depth included,
+    with whatever their bodies declare — returns with every scope binding exactly the names it bound before -/
+theorem expression_keeps_names {prog : List Stmt} (h : Structured prog) (f : Nat) (cur : List Stmt) (e : Expr) (s s' : St) (v : Val)
+    (hsuf : IsSuffixOf cur prog) (hw : e.wf = true) (hs : StOK (GoodFn prog) prog s)
+    (hrun : eval prog f cur e s = .ok (v, s')) : K s' = K s :=
+  ((namesInv_all h f f (Nat.le_refl _)).eval cur e s hsuf hw hs).of_ok hrun
+
+/-- the flat call loop: when a function returns, the scopes of the caller are still below whatever the body pushed, with
+    exactly their names (the parameter scope may have gained the body's top-level declarations) -/
+theorem call_keeps_caller_names {prog : List Stmt} (h : Structured prog) (f : Nat) (body : List Stmt) (s s2 : St) (v : Val)
+    (hgb : GoodBody body) (hsuf : IsSuffixOf body prog) (hs : StOK (GoodFn prog) prog s)
+    (hrun : callLoop prog f body s = .ok (v, s2)) : ∃ extra ext, K s2 = extra ++ grow ext (K s) :=
+  callNames_of h f (fun g _ => namesInv_all h g g (Nat.le_refl _)) body s v s2 hgb hsuf hs hrun
 end C05
 end Pakhi
